@@ -339,7 +339,11 @@ func (h *harness) lpdlProof(keys map[string]*paillier.SecretKey) {
 		if h.thorough || h.a.Search {
 			budget = 30
 		}
+		accepted := false
 		try := func(class string, b []byte) {
+			if accepted {
+				return // the verifier has moved on: nothing more can be learnt from this run
+			}
 			m, err := serde.UnmarshalCBOR[*lpdl.Round4Output[*k256.Point, *k256.BaseFieldElement, *k256.Scalar]](b)
 			cc := fmt.Sprintf("%s %s msg=%s", ct, class, trunc(vh.Hex(b), 400))
 			if err != nil || m == nil {
@@ -362,7 +366,12 @@ func (h *harness) lpdlProof(keys map[string]*paillier.SecretKey) {
 				return
 			}
 			if verr == nil && !same {
-				h.prop("lpdl-component-altered", cc, "lpdl verifier accepted a last message with one altered component", "C08 lpdl component change")
+				key := "lpdl-component-altered"
+				if strings.Contains(class, "@/m2/") && strings.HasSuffix(class, "/m1/m0/m0#b") {
+					key = "paillierrange-plaintext-modulus-unchecked" // the embedded range proof's plaintext modulus
+				}
+				accepted = true
+				h.prop(key, cc, "lpdl verifier accepted a last message with one altered component", "C08 lpdl component change")
 			}
 		}
 		for _, l := range selectLeaves(leaves, budget) {
@@ -372,6 +381,9 @@ func (h *harness) lpdlProof(keys map[string]*paillier.SecretKey) {
 		}
 		try("drop-last-byte", wire[:len(wire)-1])
 		h.res.Count("lpdl/honest", ct, true)
+		if accepted {
+			return
+		}
 		if err := ve.Round5(r4); err != nil {
 			h.prop("lpdl-honest-rejected", ct, "honest LPDL proof rejected: "+err.Error(), "completeness")
 		}
